@@ -466,10 +466,11 @@ def lenpref(n, rnd=None, pad=False):
 
 class Opts:
     """how non-canonical the encoding may be"""
-    def __init__(self, rnd=None, shuffle=False, pad=False, repack=False, split=False, stale=False, unknown=False, drop=None):
+    def __init__(self, rnd=None, shuffle=False, pad=False, repack=False, split=False, stale=False, unknown=False, drop=None, split_ok=None):
         self.rnd = rnd; self.shuffle = shuffle; self.pad = pad; self.repack = repack
         self.split = split; self.stale = stale; self.unknown = unknown
         self.drop = drop          # (message type index, field id): leave that field out of every message of that type
+        self.split_ok = split_ok  # predicate on a MsgDesc: may an embedded message of that type be split over several occurrences
 
 
 def cell_payload(env, f, c, o):
@@ -534,7 +535,8 @@ def field_records(env, desc, f, slot_or_cell, o):
                     i += 1
         return recs
     c = slot_or_cell
-    if f.type == 'MESSAGE' and o.split and c[1] is not None and rnd.random() < 0.5:
+    if f.type == 'MESSAGE' and o.split and c[1] is not None and rnd.random() < 0.5 and \
+            (o.split_ok is None or o.split_ok(env.msgs[f.sub])):
         # split the sub-message's records over two or three occurrences
         subrecs = msg_records(env, c[1], o)
         k = rnd.randint(2, 3)
@@ -643,6 +645,15 @@ def encode(env, m, o):
 
 
 CANON = Opts()
+
+
+def older_schema(rnd, env, keep=0.6):
+    """env with a random subset of the fields outside oneofs removed (message indices, oneof groups unchanged)"""
+    msgs = []
+    for m in env.msgs:
+        fs = [f for f in m.fields if f.group() is not None or rnd.random() < keep]
+        msgs.append(MsgDesc(m.idx, fs, m.n_oneofs, m.generic_init))
+    return Env(msgs)
 
 
 def contains_type(env, m, d):
